@@ -635,6 +635,15 @@ class C11(Property):
                 ops = ["n"] * 7
                 yield self.iter_case(style, "a.gif", "file", "float", m, 2, True, False, 5, 0, 0, ops, "iter-fixed")
         yield self.iter_case("iterm2", "b.gif", "pil", "none", "A", 1, False, False, 5, 0, 0, ["n"] * 3, "iter-fixed")
+        # PIL-sourced images whose PIL object is not where term-image's frame position says: moved by the caller, by
+        # an earlier direct render, by an iterator that was closed early, or already at frame k at construction
+        for style, method in (("block", ""), ("kitty", "W"), ("iterm2", "L")):
+            for ops, rep_, s0, p0 in ((["p 2", "k 0", "d", "k 1", "d", "n", "d"], 2, 0, False),
+                                      (["k 2", "d", "k 0", "d", "d"], 2, 0, False),
+                                      (["n", "n", "c", "k 0", "d", "k 2", "d"], 2, 0, False),
+                                      (["d", "k 0", "d", "n", "k 0", "d"], 1, 2, True)):
+                yield self.iter_case(style, "a.gif", "pil", "float", method, rep_, True, False, 5, 0, s0, ops,
+                                     "iter-pilmoved", pil0=p0)
         # cached iterators with non-default style arguments whose size changes after the first loop: the frames
         # re-rendered from then on must still be format(image, spec) — spec's style arguments included
         for style, method in (("kitty", "Wz7m1c9"), ("kitty", "Lz-2"), ("iterm2", "Wm1c9"), ("iterm2", "Lm1")):
@@ -730,7 +739,11 @@ class C11(Property):
                 ops.append(f"s {rng.choice([0, nf - 1, rng.randrange(nf), rng.randrange(nf), -1, nf])}")
             elif x < 0.80:
                 ops.append("sx")
-            elif x < 0.90:
+            elif x < 0.86:
+                ops.append("d")        # format(image, spec) directly, in between
+            elif x < 0.89 and src == "pil":
+                ops.append(f"p {rng.randrange(nf)}")   # the caller moves its own PIL image
+            elif x < 0.93:
                 ops.append(f"z {rng.randrange(len(SIZES))}")
             elif x < 0.96:
                 ops.append(f"k {rng.choice([0, nf - 1, rng.randrange(nf), nf])}")
@@ -740,13 +753,13 @@ class C11(Property):
             + ("-seek" if any(o[0] == "s" for o in ops) else "") + ("-size" if any(o[0] == "z" for o in ops) else "")
         return self.iter_case(style, fname, src, alpha, method, rep, is_bool, bv, n, size0, seek0, ops, kind)
 
-    def iter_case(self, style, fname, src, alpha, method, rep, is_bool, bv, n, size0, seek0, ops, kind):
+    def iter_case(self, style, fname, src, alpha, method, rep, is_bool, bv, n, size0, seek0, ops, kind, pil0=False):
         nf = NFRAMES[fname]
         spec = spec_of(style, alpha, method)
         line = (f"iter {style}/{fname}/{src} {spec.encode().hex()} {nf} {rep} {b(is_bool)} {b(bv)} {n} {size0} {seek0} "
                 f"{len(ops)} " + " ".join(ops))
         d = dict(style=style, fname=fname, src=src, spec=spec, rep=rep, cached=(bv if is_bool else n),
-                 size0=size0, seek0=seek0, ops=ops)
+                 size0=size0, seek0=seek0, ops=ops, pil0=pil0)
         return Case(line, d, kind, any(o == "n" for o in ops))
 
     def gen_res(self, rng, fault="rand", opkind=None):
@@ -952,11 +965,21 @@ class C11(Property):
         obs = self.obs[id(case)] = Obs()
         R.quiesce()
         base = R.fd_count()
-        image, pimg = make_image(style, fname, d["src"])
+        if d.get("pil0") and d["src"] == "pil":
+            # an image made from a PIL image that is at frame `seek0` already
+            pimg = PI.open(FILES[fname])
+            pimg.seek(d["seek0"])
+            image = CLS[style](pimg, width=3)
+        else:
+            image, pimg = make_image(style, fname, d["src"])
         if pimg is not None:
             base = R.fd_count()  # the caller's own descriptor is the caller's business
         set_size(image, d["size0"])
-        image.seek(d["seek0"])
+        if not d.get("pil0"):
+            image.seek(d["seek0"])
+        elif image.tell() != d["seek0"]:
+            obs.frames_ok = False
+            obs.note = f"an image made from a PIL image at frame {d['seek0']} reports frame {image.tell()}"
         sid = d["size0"]
         # the sizes must be told apart by their hash (assumption of the model)
         hashes = {}
@@ -998,6 +1021,21 @@ class C11(Property):
                 elif t[0] == "sx":
                     it.seek("1")
                     ans = "ok"
+                elif t[0] == "p":
+                    if pimg is not None:
+                        pimg.seek(int(t[1]))
+                    ans = "ok"
+                elif t[0] == "d":
+                    # a direct render at the image's frame position n shows frame n of the source — compared
+                    # with an independently opened copy at frame n (which is also what the iterator yields for n)
+                    fr = format(image, spec.replace("+A", "+W"))
+                    table = self.direct_frames(style, fname, spec, sid)[0]
+                    hit = [k for k in range(nf) if table[k] == fr]
+                    ans = f"f {hit[0]} {sid}" if hit else "f ?"
+                    if ans != f"f {image.tell()} {sid}":
+                        obs.frames_ok = False
+                        obs.note = (f"format(image) at frame position {image.tell()} gave `{ans}` "
+                                    "(not that frame of the source)")
                 elif t[0] == "s":
                     it.seek(int(t[1]))
                     ans = "ok"
@@ -1331,13 +1369,22 @@ class C11(Property):
     # -- targeted search ------------------------------------------------------------------
     def search(self, rng, tier, reasons):
         out = []
+        deadline = time.time() + 60      # the search is a diagnosis aid: bounded wall time
+
+        def late():
+            return time.time() > deadline
+
         # every fault index of a handful of paths per operation kind, then the decision functions
         for opkind in ("fmt", "iter", "draw", "nf", "file", "url", "drawstill"):
             for _ in range(6):
+                if late():
+                    return out
                 c0 = self.gen_res(rng, fault=None, opkind=opkind)
                 if c0 is None:
                     continue
                 for k in [None] + list(range(0, 40)):
+                    if late():
+                        return out
                     d = dict(c0.data)
                     c = self.res_case(d, None, k)
                     if c is None or (k is not None and c.data["fault"] is None):
@@ -1356,6 +1403,8 @@ class C11(Property):
                         f.case = c
                         out.append(f)
         for _ in range(60):
+            if late():
+                break
             c = self.gen_iter(rng)
             f = self.oracle(c, self.impl(c))
             if f:
